@@ -348,9 +348,24 @@ func (p *c09) build(i int) (*Program, string, bool) {
 
 // c09nSelf: chains in which one template stands at several levels - it names its parent by an expression that says
 // "me again" until a counter, decremented at its top level, runs out. Every level is a level like any other.
-const c09nSelf = 4
+const c09nSelf = 6
 
 func c09SelfCase(j int) (*Program, string) {
+	if j >= 4 {
+		// the template that is extended is also the library of a use: its blocks stand in the chain twice, and
+		// parent() goes through both
+		fn := func(t string) gen.Node { return pr(&gen.ECall{Fn: "fn", Args: []gen.Expr{str(t)}}) }
+		ts := map[string]*gen.Template{
+			"r": tpl("r", tx("<"), &gen.NBlock{Name: "a", Body: []gen.Node{tx("R"), fn("r.a")}}, tx("|"), &gen.NBlock{Name: "b", Body: []gen.Node{tx("Rb")}}, tx(">")),
+			"m": tpl("m", &gen.NExtends{Tpl: str("r")}, &gen.NBlock{Name: "a", Body: []gen.Node{tx("M"), fn("m.a"), pr(&gen.EParent{})}}, &gen.NBlock{Name: "b", Body: []gen.Node{tx("Mb"), pr(&gen.EParent{})}}),
+		}
+		child := []gen.Node{&gen.NExtends{Tpl: str("m")}, &gen.NUse{Tpl: str("m")}, &gen.NBlock{Name: "a", Body: []gen.Node{tx("C"), fn("c.a"), pr(&gen.EParent{})}}}
+		if j == 5 {
+			child = []gen.Node{&gen.NExtends{Tpl: str("m")}, &gen.NUse{Tpl: str("r")}, &gen.NUse{Tpl: str("m")}, &gen.NBlock{Name: "b", Body: []gen.Node{tx("Cb"), pr(&gen.EParent{})}}}
+		}
+		ts["c"] = tpl("c", child...)
+		return &Program{Templates: ts, Main: "c", Ctx: map[string]interface{}{}}, fmt.Sprintf("use-of-the-extended-template/%d", j-4)
+	}
 	depth := 2 + j%2*2 // the template stands at 2 or 4 levels
 	withParent := j/2 == 1
 	bbody := []gen.Node{tx("q("), pr(&gen.ECall{Fn: "fn", Args: []gen.Expr{str("q.b")}})}
